@@ -538,7 +538,9 @@ class Gen:
             elif self.wild('size-outside'): n = R.choice([hi + 1, max(0, lb - 1)]) if ub is not None else max(0, lb - 1)
             if k == 'bitstring':
                 nb = (n + 7) // 8; b = bytearray(R.bytes(nb))
-                if n % 8: b[-1] &= (0xff << (8 - n % 8)) & 0xff
+                # a Go BIT STRING value may carry non-zero bits after BitLength (the emulator builds AMF Set ID / Pointer from
+                # hex text): they are not part of the value and must not reach the wire
+                if n % 8 and not R.chance(1, 3): b[-1] &= (0xff << (8 - n % 8)) & 0xff
                 return {'hex': bytes(b).hex(), 'nbits': str(n)}
             if k == 'string':
                 al = b'abcdefghijklmnopqrstuvwxyz0123456789-.'
@@ -811,7 +813,7 @@ def prim_cases(rng, tier, deep_lens=None):
     # sizes: OCTET STRING, PrintableString, BIT STRING, SEQUENCE OF
     big = 300 if quick else 17000
     size_constraints = [(None, None), (0, None), (1, None), (None, 10)]
-    for a, b in [(0, 0), (1, 1), (2, 2), (3, 3), (4, 4), (8, 8), (16, 16), (17, 17), (24, 24), (32, 32), (0, 1), (0, 3), (1, 3), (0, 7), (1, 8), (1, 150),
+    for a, b in [(0, 0), (1, 1), (2, 2), (3, 3), (4, 4), (6, 6), (8, 8), (10, 10), (13, 13), (15, 15), (16, 16), (17, 17), (24, 24), (32, 32), (0, 1), (0, 3), (1, 3), (0, 7), (1, 8), (1, 150),
                  (0, 254), (0, 255), (1, 256), (0, 256), (1, 1024), (1, 65535), (0, 65535), (0, 65536), (1, 65536), (1, 131072), (20, 40)]:
         size_constraints.append((a, b))
     for kind in ('octets', 'bits', 'seqof', 'string'):
@@ -833,7 +835,8 @@ def prim_cases(rng, tier, deep_lens=None):
                         add(kind, lb, ub, ext, hex=rng.bytes(n).hex())
                     elif kind == 'bits':
                         nb = (n + 7) // 8; b = bytearray(rng.bytes(nb))
-                        if n % 8 and rng.chance(3, 4): b[-1] &= (0xff << (8 - n % 8)) & 0xff
+                        if n % 8 and rng.chance(1, 2): b[-1] &= (0xff << (8 - n % 8)) & 0xff
+                        elif n % 8: b[-1] |= 1          # stray bits after BitLength: not part of the value
                         add(kind, lb, ub, ext, hex=bytes(b).hex(), nbits=n)
                     else:
                         et = rng.choice(["valueLB:0,valueUB:255", "valueLB:0,valueUB:7", "valueLB:0,valueUB:65535", "valueExt,valueLB:0,valueUB:3"])
